@@ -449,6 +449,24 @@ def routing_suite(tier, seed, algos=("ID", "SRC", "XY"), want=None):
                               [(2, 2, ("W", "E")), (2, 1, ("S", "N")), (3, 2, ("W", "E", "S")), (1, 2, ("W", "E"))]):
             out.append(mesh(rng, m, n, algo, rng.random() < 0.3, sides=sides, partial=[], degree=4,
                             side_role={"W": "ms", "E": "s", "S": "ms", "N": "ms"}))
+        # routers with SPARE ports (a degree above what the links need): the spare ports stay unused, port numbers,
+        # select widths and table / route entries are those of the declared degree
+        if algo != "XY":
+            for extra in ((2,) if q else (1, 2, 4)):
+                k = rng.randint(3, 4)
+                dd, tt = star(rng, k, algo, rng.random() < 0.3, order=rng.sample(range(k), k), conn_order=rng.sample(range(k), k))
+                if dd is not None:
+                    dd = json.loads(json.dumps(dd))
+                    n_links = sum(int(e.get("num", 1)) if not isinstance(e.get("array"), list) else
+                                  (e["array"][0] * (e["array"][1] if len(e["array"]) > 1 else 1)) for e in dd["endpoints"])
+                    dd["routers"][0]["degree"] = n_links + extra
+                    out.append((dd, dict(tt, topo="star-spare-ports", spare=extra)))
+        for deg in ((6,) if q else (6, 7)):
+            dd, tt = mesh(rng, 2, 2, algo, rng.random() < 0.3, sides=rng.choice([(), ("W",), ("W", "N")]))
+            if dd is not None:
+                dd = json.loads(json.dumps(dd))
+                dd["routers"][0]["degree"] = deg
+                out.append((dd, dict(tt, topo="mesh-spare-ports", degree=deg)))
     return [(d, t) for d, t in out if d is not None]
 
 
